@@ -54,13 +54,23 @@ def _geom(mol):
 def _mk_settings(cfg):
     extra = {}
     if cfg.get("excited"):
-        extra["excited_states"] = {"n_states": 2, "method": "cis", "tolerance": 1e-8}
+        # explicit / omitted options: an omitted key takes the code's default (cis, 1e-6), which must not depend on earlier jobs
+        ex = {"n_states": 2}
+        if cfg["excited"] in ("cis", "rpa"):
+            ex["method"] = cfg["excited"]
+        if cfg.get("cis_tol"):
+            ex["tolerance"] = cfg["cis_tol"]
+        extra["excited_states"] = ex
         extra["active_state"] = 0
     if cfg.get("backward"):
         extra["scf_backward"] = cfg["backward"]
     if cfg.get("analytical"):
         extra["analytical_gradient"] = [True]
-    return settings(cfg["method"], cfg["eps"], cfg["conv"], cfg.get("sp2", [False]), cfg.get("uhf", False), extra)
+    sd = settings(cfg["method"], cfg["eps"], cfg["conv"], cfg.get("sp2", [False]), cfg.get("uhf", False), extra)
+    if cfg.get("elements_all"):
+        # the optional user-supplied element list: with it a dictionary / driver can legitimately serve molecules of different elements
+        sd["elements"] = [0] + sorted({z for t in POOL for z in M.ALL[t]["Z"]})
+    return sd
 
 
 class _Ctx:
@@ -359,7 +369,7 @@ class Replayer:
         if op.get("sid") is not None:
             els = set(_geom(op["mol"])[0])
             first = self.dict_elements.setdefault(op["sid"], els)
-            new_element = not els <= first
+            new_element = not els <= first and not cfg.get("elements_all")
             if new_element:
                 labels.append("reused_dict_meets_new_element")
         hist_bucket = "reused_settings_dict_lacks_new_element" if new_element else None
@@ -394,15 +404,20 @@ class Replayer:
 @st.composite
 def _cfg(draw, grad=False):
     cfg = {"method": draw(st.sampled_from(METHODS)), "eps": draw(st.sampled_from([1e-5, 1e-8, 1e-10])), "conv": draw(st.sampled_from([[1], [0, 0.3], [2], [1]]))}
-    flavour = draw(st.sampled_from(["plain", "plain", "uhf", "sp2", "excited", "analytical"])) if not grad else "plain"
+    flavour = draw(st.sampled_from(["plain", "plain", "uhf", "sp2", "excited", "excited", "analytical"])) if not grad else "plain"
     if flavour == "uhf":
         cfg["uhf"] = True
     elif flavour == "sp2":
         cfg["sp2"] = [True, 1e-6]
     elif flavour == "excited":
-        cfg["excited"] = True
+        cfg["excited"] = draw(st.sampled_from(["cis", "rpa", "default", "default"]))
+        tol = draw(st.sampled_from([None, None, 1e-8]))
+        if tol:
+            cfg["cis_tol"] = tol
     elif flavour == "analytical":
         cfg["analytical"] = True
+    if draw(st.booleans()):
+        cfg["elements_all"] = True
     if grad:
         cfg["backward"] = draw(st.sampled_from([1, 1, 2]))
         cfg["conv"] = draw(st.sampled_from([[1], [2]]))
@@ -520,6 +535,15 @@ def make_machine(rec, Failure, tier, sub):
             rest = [p for p in (pa, pb) if p not in first]
             if rest:
                 self._judge({"op": "backward", "pids": rest})
+
+        @rule(method=st.sampled_from(METHODS), how=st.sampled_from(["rpa", "cis"]), tol=st.sampled_from([None, 1e-8]), ma=_MOL, mb=_MOL, eps=st.sampled_from([1e-8, 1e-10]))
+        def excited_explicit_then_default(self, method, how, tol, ma, mb, eps):
+            """an excited-state job that spells its options out, then one that relies on the defaults"""
+            a = {"method": method, "eps": eps, "conv": [1], "excited": how}
+            if tol:
+                a["cis_tol"] = tol
+            self._judge({"op": "sp", "cfg": a, "mol": ma, "sid": None, "did": None})
+            self._judge({"op": "sp", "cfg": {"method": method, "eps": eps, "conv": [1], "excited": "default"}, "mol": mb, "sid": None, "did": None})
 
         @rule(sid=dicts, mols=st.lists(_MOL, min_size=2, max_size=3))
         def driver_reuse_chain(self, sid, mols):
